@@ -1012,6 +1012,49 @@ func (e *env) runLoopback() {
 		Packet: &pdkg.GossipPacket_Execute{Execute: &pdkg.StartExecution{Time: timestamppb.Now()}}}, true, true)
 }
 
+// runLockLeft: sync requests to processes that have no beacon handler yet (fresh, mid-DKG) are
+// rejected; a rejected request must not leave the process's state lock held: afterwards a writer of
+// that lock (StopBeacon, what the end of a DKG / a shutdown does) must get through, and so must the
+// readers behind it.
+func (e *env) runLockLeft() {
+	ctx := context.Background()
+	for _, id := range []string{"alpha", "prop"} {
+		bp, err := e.dd.VerifRoutingProcessByID(id)
+		if err != nil {
+			continue
+		}
+		for i := 0; i < 3; i++ {
+			sctx, cancel := context.WithTimeout(ctx, 2*time.Second)
+			st := &syncStream{ctx: sctx, cancel: cancel}
+			cls := call(func() error { return e.dd.SyncChain(&drand.SyncRequest{FromRound: uint64(i), Metadata: &drand.Metadata{BeaconID: id}}, st) })
+			cancel()
+			e.rep.Evaluations++
+			e.rep.Count("lockleft/sync-" + clsName[cls])
+		}
+		name := "SyncChain x3 to " + id + " (no beacon handler yet), then StopBeacon"
+		if cls := call(func() error { bp.StopBeacon(ctx); return nil }); cls != clsAnswered {
+			e.rep.Fail("C14-lock-left-held-by-rejected-request", "after rejected sync requests a writer of the process's state lock ("+clsName[cls]+": StopBeacon) does not get through", name)
+			// the readers queued behind the pending writer
+			if c := call(func() error {
+				_, err := e.dd.ChainInfo(ctx, &drand.ChainInfoRequest{Metadata: &drand.Metadata{BeaconID: id}})
+				return err
+			}); c == clsTimeout {
+				e.rep.Fail("C14-probe-unanswered", "ChainInfo for "+id+" no longer returns", name)
+			}
+			e.wedged[0] = true // dd.Stop would wait for this process
+			return
+		}
+		e.rep.Count("lockleft/writer-through")
+		if c := call(func() error {
+			_, err := e.dd.ChainInfo(ctx, &drand.ChainInfoRequest{Metadata: &drand.Metadata{BeaconID: id}})
+			return err
+		}); c == clsTimeout || c == clsPanic {
+			e.rep.Fail("C14-probe-unanswered", "ChainInfo for "+id+": "+clsName[c], name)
+		}
+	}
+	e.probeDaemon("lock-left scenario")
+}
+
 // Run is the engine entry point.
 func Run(outDir string, seed int64, tier string) error {
 	if devnull, err := os.OpenFile(os.DevNull, os.O_WRONLY, 0); err == nil {
@@ -1038,6 +1081,7 @@ func Run(outDir string, seed int64, tier string) error {
 		e.runRouted()
 		e.runHTTP()
 		e.runLoopback()
+		e.runLockLeft()
 	}
 	sctx, cancel := context.WithTimeout(context.Background(), 5*time.Second)
 	if !e.wedged[0] {
